@@ -7,7 +7,9 @@ import sender_check
 def run(ctx):
     standard_lean_phase(ctx)
     n = 250 if ctx.tier == "quick" else 6000
-    fails = CC.run_scenarios(ctx, "C09", n, steps=60)
+    import directed
+    fails = CC.run_scenarios(ctx, "C09", 1, scenario_cls=directed.F21, seeds=[0])      # the recorded finding F21 as a fixed script
+    fails += CC.run_scenarios(ctx, "C09", n, steps=60)
     ctx.cov["rule"] = ("generated scenarios through the real mqtt_client on the scripted stream: API calls (publish QoS 0/1/2 with properties, subscribe, unsubscribe, receive, per-operation "
                        "cancellation signals), a broker (acks with reason codes/properties, inbound QoS 0/1/2 messages, held-back replies), byte chunking, connection loss with partial delivery, "
                        "reconnects with changing Receive Maximum / Server Keep Alive / Session Present, virtual time, then a fault-free suffix and cancel() or async_disconnect; "
